@@ -138,7 +138,7 @@ func (m *RWMutex) Unlock() {
 //go:norace
 func (m *RWMutex) RLock() {
 	if vrt.Running() {
-		vrt.PointOp(&vrt.Op{Kind: "rwmutex.RLock", Obj: uintptr(unsafe.Pointer(m)), Write: true, Ready: m.noWriter})
+		vrt.PointOp(&vrt.Op{Kind: "rwmutex.RLock", Obj: uintptr(unsafe.Pointer(m)), Write: false, Ready: m.noWriter})
 		m.readers++
 		if !m.real.TryRLock() {
 			panic("vrt: model/real divergence: RWMutex.RLock would block")
@@ -152,7 +152,7 @@ func (m *RWMutex) RLock() {
 //go:norace
 func (m *RWMutex) TryRLock() bool {
 	if vrt.Running() {
-		vrt.PointOp(&vrt.Op{Kind: "rwmutex.TryRLock", Obj: uintptr(unsafe.Pointer(m)), Write: true})
+		vrt.PointOp(&vrt.Op{Kind: "rwmutex.TryRLock", Obj: uintptr(unsafe.Pointer(m)), Write: false})
 		if m.announced {
 			return false
 		}
@@ -167,7 +167,7 @@ func (m *RWMutex) TryRLock() bool {
 //go:norace
 func (m *RWMutex) RUnlock() {
 	if vrt.Running() {
-		vrt.PointOp(&vrt.Op{Kind: "rwmutex.RUnlock", Obj: uintptr(unsafe.Pointer(m)), Write: true})
+		vrt.PointOp(&vrt.Op{Kind: "rwmutex.RUnlock", Obj: uintptr(unsafe.Pointer(m)), Write: false})
 	}
 	if m.readers <= 0 {
 		panic("sync: RUnlock of unlocked RWMutex")
@@ -196,7 +196,7 @@ func (w *WaitGroup) zero() bool { return w.n == 0 }
 //go:norace
 func (w *WaitGroup) Add(d int) {
 	if vrt.Running() {
-		vrt.PointOp(&vrt.Op{Kind: "waitgroup.Add", Obj: uintptr(unsafe.Pointer(w)), Write: true})
+		vrt.PointOp(&vrt.Op{Kind: "waitgroup.Add", Obj: uintptr(unsafe.Pointer(w)), Write: false})
 	}
 	if w.n+d < 0 {
 		panic("sync: negative WaitGroup counter")
